@@ -290,20 +290,11 @@ impl S3Storage {
 
         let client = aws_sdk_s3::Client::from_conf(s3_config);
         let rt = Runtime::new().unwrap();
-        let objects = rt.block_on(async {
-            client
-                .list_objects_v2()
-                .set_prefix(Some(NUN_S3_READ_PREFIX.to_string()))
-                .bucket(bucket)
-                .send()
-                .await
-                .unwrap()
-                .contents()
-                .into_iter()
-                .flat_map(|x| x.key())
-                .map(ToString::to_string)
-                .collect::<Vec<String>>()
-        });
+        let objects = rt.block_on(crate::storage::s3_partition::list_all_object_keys(
+            &client,
+            bucket,
+            NUN_S3_READ_PREFIX.to_string(),
+        ));
         log::debug!("Objects: {:?}", objects);
         let prefix_to_clean = format!("{}/", &NUN_S3_READ_PREFIX.to_string());
         let db_names = objects
